@@ -71,7 +71,18 @@ def gen_file(rng, boundary=False):
     orders = [rng.rint(0, 5) for _ in range(nd)] if rng.chance(0.8) else [rng.rint(0, 5)] * nd
     budget = 3000 if not boundary else 40
     nk = []
-    for d in range(nd):
+    prefer = None
+    if not boundary and rng.chance(0.12):
+        # one LONG knot vector (larger than the estimate's rounding slack of 1-2 kB) in a dimension that is NOT convolved:
+        # any temporary copy of an untouched dimension's data that coexists with the new arrays then exceeds the estimate
+        nd = rng.choice([2, 2, 3])
+        orders = [rng.rint(1, 3) for _ in range(nd)]
+        long_d = rng.below(nd)
+        for d in range(nd):
+            ax = rng.rint(300, 900) if d == long_d else rng.rint(2, 6)
+            nk.append(ax + orders[d] + 1)
+        prefer = [d for d in range(nd) if d != long_d]
+    for d in range(nd if not nk else 0):
         maxax = min(24, max(1, int(round(budget ** (1.0 / nd)))))   # convolve costs naxis^2 * n blossoms, each exponential in order+n
         ax = rng.rint(1, max(1, maxax)) if not rng.chance(0.15) else 1
         nk.append(ax + orders[d] + 1)
@@ -84,7 +95,10 @@ def gen_file(rng, boundary=False):
         k = gen_key(rng, i)
         v = gen_value(rng) if not boundary else rng.choice(["m" * 68, "h" * 100, gen_value(rng)])
         aux.append([k, v])
-    return {"periods": int(rng.chance(0.3)), "orders": orders, "nknots": nk, "aux": aux}
+    f = {"periods": int(rng.chance(0.3)), "orders": orders, "nknots": nk, "aux": aux}
+    if prefer:
+        f["prefer_conv"] = prefer
+    return f
 
 def gen_convs(rng, f, k):
     """no convolution + k convolutions. Dimensions of order 0 and single-knot kernels are not convolved in generated
@@ -92,6 +106,8 @@ def gen_convs(rng, f, k):
     nd = len(f["orders"])
     cs = [[0, 0]]
     ok = [d for d in range(nd) if f["orders"][d] >= 1]
+    if f.get("prefer_conv"):
+        ok = [d for d in f["prefer_conv"] if f["orders"][d] >= 1] or ok
     for _ in range(k):
         if ok:
             cs.append([rng.choice([2, 2, 3, 3, 4, 5, 6, 7, 8]), rng.choice(ok)])
